@@ -57,9 +57,12 @@ UNARY = [
     ("filter_even", dict(kind="filter", f="even"), ("i",), _same),
     ("filter_lt2", dict(kind="filter", f="lt2"), ("i",), _same),
     ("filter_true", dict(kind="filter", f="true"), ANY, _same),
+    ("remove_even", dict(kind="filter", f="odd"), ("i",), _same),           # .remove(even)
+    ("remove_lt2", dict(kind="filter", f="ge2"), ("i",), _same),            # .remove(lt2)
     ("acc_add", dict(kind="accumulate", f="add"), ("i",), _same),
     ("acc_add_start", dict(kind="accumulate", f="add", lits=[["i", 1]]), ("i",), _same),
     ("acc_max", dict(kind="accumulate", f="max"), ("i",), _same),
+    ("scan_add", dict(kind="accumulate", f="add", m=1), ("i",), _same),     # .scan(add)
     ("frequencies", dict(kind="accumulate", f="freq", lits=[["t", []]]), ("i",), _const("d")),      # Stream.frequencies()
     ("acc_addrs", dict(kind="accumulate", f="addrs", b1=True, lits=[["i", 0]]), ("i",), _same),
     ("acc_add_ws", dict(kind="accumulate", f="add", b2=True), ("i",), _const("t2")),
@@ -96,6 +99,7 @@ UNARY = [
     ("unique_list_max1", dict(kind="unique", f="id", m=1, b1=False), ANY, _same),
     ("unique_list_max2", dict(kind="unique", f="id", m=2, b1=False), ANY, _same),
     ("flatten", dict(kind="flatten"), ("t2", "tv"), _const("i")),
+    ("concat", dict(kind="flatten", b1=True), ("t2", "tv"), _const("i")),   # .concat()
     ("pluck_0", dict(kind="pluck", lits=[0]), ("t2",), _const("i")),
     ("pluck_1", dict(kind="pluck", lits=[1]), ("t2",), _const("i")),
     ("pluck_list", dict(kind="pluck", lits=[1, 0], b1=True), ("t2",), _const("t2")),
@@ -231,7 +235,7 @@ def catalogue(tier):
     core2 = ["map_inc", "filter_even", "acc_add", "slice_1_none_2", "slice_0_2_1", "partition_2",
              "partition_2_mod2", "punique_2_mod2_first", "punique_2_id_last", "sliding_2_partial",
              "sliding_2_full", "unique", "unique_max1", "unique_list_max1", "flatten", "map_pair",
-             "pluck_1", "pluck_list1", "frequencies", "collect", "starmap_add2", "map_rep", "acc_add_ws"]
+             "pluck_1", "pluck_list1", "frequencies", "remove_even", "concat", "scan_add", "collect", "starmap_add2", "map_rep", "acc_add_ws"]
     if tier == "quick":
         progs += [c for c in chains(2, core2) if c[0].count(">") == 1]
     else:
